@@ -377,6 +377,42 @@ def d5(chk, prog):
     tb.done("trim mode does not clip to the query range on a copy (or another mode alters rows)")
 
 
+def exact_df(chroms, tag):
+    df = DF({"chromosome": Vec(list(chroms), aligned=True), "start": Vec([10 * i for i in range(len(chroms))], aligned=True),
+             "end": Vec([10 * i + 5 for i in range(len(chroms))], aligned=True), "id": Vec([f"{tag}{i}" for i in range(len(chroms))], aligned=True)}, len(chroms))
+    df.exact = True
+    return df
+
+
+def d6(chk, prog):
+    chk.clause("D6", "chromosome pairing: every chromosome of the query table is paired with exactly the other table's rows on that chromosome (or nothing)")
+    fi = prog.fn("skgenome.intersect.by_shared_chroms")
+    tb = Table(chk, "chromosome-pairing", "by_shared_chroms on small tables (one / several chromosomes on either side; absent chromosomes; keep_empty)", fi.loc(), fi.qn)
+    tables = [["a"], ["a", "a"], ["a", "a", "b"], ["b", "a", "a"], ["b"], ["a", "c"]]
+    others = [["a"], ["a", "a"], ["a", "b"], ["b", "a", "b"], ["b"], ["c", "b"], ["a", "b", "c"]]
+    for tc, oc, keep in itertools.product(tables, others, [True, False]):
+        W.reset()
+        t, o = exact_df(tc, "t"), exact_df(oc, "o")
+        it = Interp(prog)
+        out = tb.guard(lambda: list(it.run(fi.qn, [t, o, keep])), f"table={tc} other={oc} keep_empty={keep}")
+        if out is None:
+            continue
+        want = []
+        for c in dict.fromkeys(tc):
+            trows = [f"t{i}" for i, x in enumerate(tc) if x == c]
+            orows = [f"o{i}" for i, x in enumerate(oc) if x == c]
+            if orows:
+                want.append((c, trows, orows))
+            elif keep:
+                want.append((c, trows, None))
+        got = []
+        for trip in out:
+            c, tt, oo = trip
+            got.append((c, list(tt.cols["id"].v) if isinstance(tt, DF) else repr(tt), (list(oo.cols["id"].v) if isinstance(oo, DF) else repr(oo)) if oo is not None else None))
+        tb.cell(got == want, dict(table=tc, other=oc, keep_empty=keep, got=got, want=want))
+    tb.done("by_shared_chroms pairs a chromosome's rows with rows of another chromosome (or drops / duplicates a chromosome)")
+
+
 def run(chk):
     prog = chk.prog
     chk.trust("Python grammar via ast", "Series.searchsorted(q, side): 'left' = #{x < q}, 'right' = #{x <= q} on a sorted column; .loc label-based, .iloc position-based",
@@ -385,10 +421,23 @@ def run(chk):
     d3(chk, prog)
     d4(chk, prog)
     d5(chk, prog)
+    d6(chk, prog)
 
 
 _I = "skgenome/intersect.py"
 MUTANTS = [
+    dict(name="seeded C07c: one-chromosome shortcut when the other table merely covers it", file=_I, old="    if len(table_chr) == 1 and table_chr == other_chr:", new="    if len(table_chr) == 1 and table_chr <= other_chr:"),
+    dict(name="seeded C13d: shortcut by .any() instead of set equality", file=_I, old="""    table_chr, other_chr = set(table["chromosome"]), set(other["chromosome"])
+    if len(table_chr) == 1 and table_chr == other_chr:
+        yield table["chromosome"].iat[0], table, other""", new="""    table_chr = table["chromosome"].unique()
+    if len(table_chr) == 1 and (other["chromosome"] == table_chr[0]).any():
+        yield table_chr[0], table, other"""),
+    dict(name="twin: shortcut by .all() on unique()", expect="silent", file=_I, old="""    table_chr, other_chr = set(table["chromosome"]), set(other["chromosome"])
+    if len(table_chr) == 1 and table_chr == other_chr:
+        yield table["chromosome"].iat[0], table, other""", new="""    table_chr = table["chromosome"].unique()
+    if len(table_chr) == 1 and (other["chromosome"] == table_chr[0]).all():
+        yield table_chr[0], table, other"""),
+    dict(name="keep_empty ignored for absent chromosomes", file=_I, old="            elif keep_empty:\n                yield chrom, ctable, None", new="            else:\n                yield chrom, ctable, None"),
     dict(name="regress: bisect end on nested rows when ends missing", file=_I, old="        if not table.end.is_monotonic_increasing:", new="        if ((ends is not None and len(ends)) and (starts is not None and len(starts))) and not table.end.is_monotonic_increasing:"),
     dict(name="regress: into_ranges returns dest", file=_I, old="        return pd.Series([default] * len(dest))", new="        return dest"),
     dict(name="outer start: side right dropped", file=_I, old='            start_idxs = table.end.searchsorted(starts, "right")', new="            start_idxs = table.end.searchsorted(starts)"),
